@@ -476,12 +476,15 @@ def g_pfd_step(rng, wf_texts, flavour):
         ctx = [{"fd": g_fd(rng, wf_texts, rng.choice([None, "in", "out"]))} for _ in range(n)]
         ctx = [c for c in ctx if len(c["fd"]) >= 2]          # shorter ones are refused by go-pfcp's own decoder
         apps.append({"id": rng.choice(APP_IDS), "ctxs": [ctx]})
-    if flavour == "multi":
+    if flavour == "multi":                                  # several PFD Contexts for one application
         a = rng.choice(apps)
-        a["ctxs"].append([{"fd": g_fd(rng, wf_texts, rng.choice(["in", "out"]))}])
+        for _ in range(rng.choice([1, 1, 2])):
+            extra = [{"fd": g_fd(rng, wf_texts, rng.choice(["in", "out"]))} for _ in range(rng.choice([0, 1, 1, 2]))]
+            a["ctxs"].insert(rng.randrange(len(a["ctxs"]) + 1), [c for c in extra if len(c["fd"]) >= 2])
+    st = {"kind": "pfd", "apps": apps}
     if flavour == "reject":
         a = rng.choice(apps)
-        k = rng.randrange(5)
+        k = rng.randrange(7)
         if k == 0:
             a["id"] = None
         elif k == 1:
@@ -490,9 +493,14 @@ def g_pfd_step(rng, wf_texts, flavour):
             a["ctxs"][0].insert(rng.randrange(len(a["ctxs"][0]) + 1), {"fd": ""})
         elif k == 3:
             a["ctxs"][0].insert(rng.randrange(len(a["ctxs"][0]) + 1), {"bad": True})
-        else:
+        elif k == 4:
             a["ctxs"][0].insert(rng.randrange(len(a["ctxs"][0]) + 1), {"fd": "x"})
-    return {"kind": "pfd", "apps": apps}
+        elif k == 5:                                        # the defect sits in a later PFD Context
+            a["ctxs"].append([{"fd": g_fd(rng, wf_texts, "out")}, rng.choice([{"fd": ""}, {"bad": True}])])
+        else:                                               # a PFD Context that cannot be decoded
+            a["bad_ctx_at"] = rng.randrange(len(a["ctxs"]) + 1)
+            st["direct"] = True                             # message.Parse itself refuses such a request
+    return st
 
 
 def g_pdr_app_step(rng, ids):
@@ -623,11 +631,13 @@ def mon_app(st, o):
 
 
 def provisioned(apps_abs, first_only=False):
+    """the table a request carries: per application (a later IE for the same id wins) the flow descriptions
+    of all its PFD Contexts in order"""
     t = {}
     for a in apps_abs:
         ds = []
         for ctx in (a["ctxs"][:1] if first_only else a["ctxs"]):
-            ds += [d for d in ctx if d is not None]
+            ds += [d for d in (ctx or []) if d is not None]
         t[a["id"]] = ds
     return t
 
@@ -787,13 +797,14 @@ def coq_terms(c, o):
         else:
             strs = [d for k, v in so["before"] + so["after"] for d in v + [k]]
             for a in so["abs"]:
-                strs += [a["id"] or ""] + [d or "" for ctx in a["ctxs"] for d in ctx]
+                strs += [a["id"] or ""] + [d or "" for ctx in a["ctxs"] for d in (ctx or [])]
             if not in_model(*strs):
                 continue
             req = []
             for a in so["abs"]:
                 aid = "None" if a["id"] is None else f"(Some {cstr(a['id'])})"
-                ctxs = glist([glist(["None" if d is None else f"(Some {cstr(d)})" for d in ctx]) for ctx in a["ctxs"]])
+                ctxs = glist(["None" if ctx is None else
+                              "(Some " + glist(["None" if d is None else f"(Some {cstr(d)})" for d in ctx]) + ")" for ctx in a["ctxs"]])
                 req.append(f"AppIE {aid} {ctxs}")
             out.append((f"CPfd {ctable(so['before'])} {glist(req)} {gbool(so['cause'] == 1)} {ctable(so['after'])}", repr(st)))
     return out
@@ -811,8 +822,12 @@ def accessor_tie(c, o):
             continue
         if st["kind"] == "pfd":
             for a, x in zip(st["apps"], so["abs"]):
-                first = x["ctxs"][0] if x["ctxs"] else None
-                if x["first"] != first or len(x["ctxs"]) != len(a["ctxs"]) or x["id"] != a["id"]:
+                if x.get("unreadable"):
+                    if a.get("bad_ctx_at") is None:
+                        return f"Application ID's PFDs IE unreadable although built well-formed: {a}"
+                    continue
+                want = len(a["ctxs"]) + (1 if a.get("bad_ctx_at") is not None else 0)
+                if len(x["ctxs"]) != want or x["id"] != a["id"]:
                     return f"PFD accessor tree differs from the request built: {a} vs {x}"
     return None
 
